@@ -3,8 +3,9 @@
 Engine A (DESIGN.md section 5, C25): the real `line_index` crate, compiled to LLVM IR by the repository's rustc, is executed
 symbolically on a text of symbolic bytes and a symbolic offset. For every path z3 decides that the returned
 (line, column) equals the specification — line = number of '\\n' strictly before the offset, column = offset
-minus the index just after the last such '\\n' (or 0) — for every offset <= len. The rendered `file:line:col`
-header of diagnostics is outside this check.
+minus the index just after the last such '\\n' (or 0) — for every offset <= len. Second part: the real
+Diagnostic::display (llharness_diag) renders a diagnostic with a symbolic range over a symbolic text; its
+`--> at file:line:col` header must be the 1-based position where the range starts.
 """
 import random
 import z3
@@ -87,6 +88,73 @@ def make_concrete(case):
     return st, [BUF, len(text), off]
 
 
+def header_part(chk, tier, rnd):
+    """second sentence of the property: the real Diagnostic::display renders a diagnostic whose range is symbolic over a
+    symbolic text; the `--> at file:line:col` header must name the 1-based position where the range starts
+    (llharness_diag/src/lib.rs compares it with a direct count). Zero-width ranges are included."""
+    from lib.strcheck import judge_zero
+    ll, so = llcheck.build_harness('llharness_diag')
+    mod = llcheck.load_module(ll)
+    entry = '@harness_diag_header'
+    alphabet = [ord('a'), 10, 13, 9]
+
+    def nargs(c):
+        text, st, en = c
+        return [('bytes', list(text)), ('int', len(text), 'c_size_t'), ('int', st, 'c_uint32'), ('int', en, 'c_uint32')]
+
+    def conc(c):
+        text, st_, en = c
+        st = State()
+        for i, b in enumerate(text):
+            st.mem[BUF + i] = b
+        return st, [BUF, len(text), st_, en]
+    cases = []
+    for _ in range(10):
+        n = rnd.randint(1, 6)
+        text = bytes(rnd.choice(b'a\nb\r') for _ in range(n))
+        a = rnd.randint(0, n - 1); b = rnd.randint(a + 1, n)
+        cases.append((text, a, b))
+    llcheck.selftest(chk, mod, so, entry, conc, nargs, cases, ret='c_uint32', ret_bits=32)
+
+    def build(part):
+        n, start = part
+        st = State()
+        bs = [z3.BitVec('b%d' % i, 8) for i in range(n)]
+        for i, b in enumerate(bs):
+            st.mem[BUF + i] = b
+            st.pc.append(z3.Or(*[b == c for c in alphabet]))
+        en = z3.BitVec('end', 32)
+        st.pc += [z3.UGE(en, start), z3.ULE(en, n)]
+        return st, [BUF, n, start, en], {'text': bs, 'start': start, 'end': en}
+
+    def judge(ex, p, inputs):
+        v = judge_zero(ex, p, inputs)
+        if v is not None and v.get('code') == 0x80000000:
+            return None
+        return v
+    nmax = 3 if tier == 'quick' else 5
+    parts = [(n, s) for n in range(1, nmax + 1) for s in range(0, n + 1)]
+    tot = explore(chk, mod, Job(entry, build, judge, max_steps=6_000_000), parts, nproc=16)
+    seen = set()
+    for v in tot['violations']:
+        ins = v['inputs']
+        text = bytes(ins['text']); a = ins['start']; b = ins['end']
+        r = llcheck.native_call(so, entry, nargs((text, a, b)), ret='c_uint32')
+        shape = 'zero-width range' if a == b else 'non-empty range'
+        at_line_start = a == 0 or text[a - 1:a] == b'\n'
+        key = {'kind': 'diagnostic-header', 'range': shape, 'at_line_start': at_line_start, 'outcome': 'panic' if v.get('code') not in (1, 2, 3, 4) else 'wrong-position'}
+        sig = tuple(sorted(key.items()))
+        if sig in seen:
+            continue
+        seen.add(sig)
+        what = 'Diagnostic::display over %r with range %d..%d: %s; native call %r (1 no header, 2 unparsable, 3 wrong line, 4 wrong column)' % (text, a, b, v['what'], r)
+        if r[0] == 'ret' and r[1] == 0:
+            chk.inconclusive_note('model did not reproduce natively: ' + what); continue
+        path = llcheck.make_harness_replay('C25', 'header_%d' % len(seen), 'llharness_diag', entry, nargs((text, a, b)), what, key, ret='c_uint32')
+        chk.report(key, what, path)
+    chk.bounds['diagnostic_header'] = 'texts of 1..%d bytes over {a, \\n, \\r, \\t}, every range start..end with start <= end <= len (zero-width included), one validation diagnostic' % nmax
+
+
 def run(chk, tier, seed):
     ll, so = llcheck.build_harness('llharness')
     mod = llcheck.load_module(ll)
@@ -118,10 +186,11 @@ def run(chk, tier, seed):
             chk.inconclusive_note('model did not reproduce natively: ' + what); continue
         path = llcheck.make_harness_replay('C25', 'linecol_%d' % len(chk.violations), 'llharness', ENTRY, args, what, key, ok_value=want)
         chk.report(key, what, path)
+    header_part(chk, tier, rnd)
     chk.cov['exhaustive'] = True
     chk.cov['explanation'] = 'states = finished paths of the real LineIndex::new+line_col over symbolic text and offset; each path is judged by one z3 query against the specification'
     chk.bounds.update({'text_length': '0..%d bytes over ASCII + "é"; 0..%d all-ASCII' % (nmax_utf, nmax_ascii), 'offset': 'all offsets <= len (symbolic u32)',
-                       'outside_claim': ['the rendered `file:line:col` header of Diagnostic::display (the two +1s)', 'texts longer than the bound', 'offsets > len']})
+                       'outside_claim': ['diagnostic kinds other than the validation warning used by the header harness (the header code is shared)', 'the snippet lines under the header', 'texts longer than the bound', 'offsets > len']})
     chk.assumptions.extend(['rustc 1.88 lowers the crate to this LLVM IR (opt-level 1, fat LTO); llsym transcribes LLVM semantics (validated against native runs)',
                             'uninitialised memory reads as zero in the executor', 'input text is valid UTF-8 (ASCII plus U+00E9)'])
 
